@@ -80,7 +80,7 @@ func c13Gen(r *rand.Rand, lane string) *c13Case {
 		mode = core.Pick(r, "id", "id", "title", "both", "both-rev", "mixed")
 	}
 	idVal := func() string {
-		return core.Pick(r, fmt.Sprint(r.Intn(50)), fmt.Sprint(r.Intn(50)), fmt.Sprintf("%s-%d", rule, r.Intn(30)), `"7"`, "abc", "-1", "007", "99999999999999999999", "")
+		return core.Pick(r, fmt.Sprint(r.Intn(50)), fmt.Sprint(r.Intn(50)), fmt.Sprintf("%s-%d", rule, r.Intn(30)), `"7"`, "abc", "-1", "007", "99999999999999999999", "", "t", "id", "-", "e", "test", "_", "s")
 	}
 	for i := 0; i < n; i++ {
 		sp := core.Pick(r, " ", " ", " ", "  ", "\t")
@@ -112,7 +112,7 @@ func c13Gen(r *rand.Rand, lane string) *c13Case {
 			}
 		}
 		idLine := "test_id:" + sp + idVal()
-		titleLine := "test_title:" + sp + core.Pick(r, rule+"-"+fmt.Sprint(r.Intn(30)), `"`+rule+`-3"`, "whatever", "920100-1")
+		titleLine := "test_title:" + sp + core.Pick(r, rule+"-"+fmt.Sprint(r.Intn(30)), `"`+rule+`-3"`, "whatever", "920100-1", "test", "title", "t", "-")
 		if mode == "both-rev" {
 			if hasTitle {
 				item(titleLine)
@@ -190,6 +190,10 @@ func c13Check(env *core.Env, cc core.Case) core.Verdict {
 	rel := filepath.Join("tests", "regression", "tests", "REQUEST-"+c.Rule[:3]+"-TESTS", c.Rule+c.Ext)
 	other := filepath.Join("tests", "regression", "tests", "REQUEST-"+c.Rule[:3]+"-TESTS", "README.md")
 	tree := sut.Tree{rel: c.Content, other: "test_id: 9\n- test_title: x\n\n\n"}
+	// hidden entries next to the test files must neither be touched nor stop the walk
+	tree[filepath.Join(filepath.Dir(rel), ".gitkeep")] = ""
+	tree[filepath.Join(filepath.Dir(rel), ".DS_Store")] = "test_id: 3\n"
+	tree[filepath.Join("tests", "regression", "tests", ".hidden", "920999.yaml")] = "  - test_id: 1\n"
 	otherRel := map[string]c13Other{}
 	for _, o := range c.Others {
 		p := filepath.Join("tests", "regression", "tests", "REQUEST-"+o.Rule[:3]+"-TESTS", o.Rule+o.Ext)
@@ -291,7 +295,7 @@ func init() {
 		Rule: "generated ftw-style YAML test files (0..12 tests; lanes id-only, title-only, both, both reversed, mixed; odd id values; CRLF; missing/extra final newlines, trailing white-space lines; .yaml/.yml; single rule argument or --all; text or github output) are run through the built CLI: --check, renumber, renumber again, --check. " +
 			"Oracle: independent line model (n-th test_id -> n, n-th test_title -> <rule>-n, other line content equal, trailing blank lines removed, one final newline), byte comparison, snapshot of the whole tree. Non-trivial = file with >= 2 numbered fields; distinct by case hash. Domain: every file has at least one non-blank line; each line carries at most one of the two keys, written 'key:<space|tab>value'.",
 		Cases: func(env *core.Env, rng *rand.Rand) []core.Case {
-			n := env.N(600, 12000)
+			n := env.N(1500, 15000)
 			var cs []core.Case
 			for i := 0; i < n; i++ {
 				lane := ""
